@@ -44,7 +44,7 @@ MANIFEST = {
             "is checked against the site's fact (C03_facts_support_discharges, C03_decl_uses_discharged, C03_identifier_uses); (2) the shape of "
             "set_random_seed / __init__ / reset is regenerated as Gen/NondetSeeding.lean and must be the shape the theorems are about, with "
             "seeding before the construction of the game (C03_gen_seed_shape, C03_gen_seed_before_build) and every draw made at call time from a "
-            "seeded family (C03_gen_draw_families_seeded). Of 68 discharges 17 rest on a model lemma alone, 40 on a mechanical fact plus a lemma "
+            "seeded family (C03_gen_draw_families_seeded). Of 70 discharges 17 rest on a model lemma alone, 42 on a mechanical fact plus a lemma "
             "for the kind, 7 on a mechanical fact plus a trusted runtime fact, 4 are attributed to F-9 (C03_discharge_counts); none rests on "
             "reading alone. Correspondence tie: identical (scenario, seed, operations) in fresh interpreters whose PYTHONHASHSEED values are "
             "chosen to give pairwise different set orders of the scenario's string vocabularies, logging fully on / fully off, diffed step by step "
